@@ -7,6 +7,7 @@ This is the default dispatcher used by circuits.web
 
 from circuits import BaseComponent, Event, handler
 from circuits.web.controllers import BaseController
+from circuits.web.errors import notfound
 from circuits.web.events import response
 from circuits.web.processors import process
 from circuits.web.utils import parse_qs
@@ -116,12 +117,14 @@ class Dispatcher(BaseComponent):
         if value.handled:
             return
 
-        _req, res = value.event.args[:2]
+        req, res = value.event.args[:2]
         if value.result and not value.errors:
             res.body = value.value
             self.fire(response(res))
-        elif value.promise:
-            value.event.notify = True
+        elif value.promise and not value.errors:
+            # The generator handler finished without yielding a value:
+            # answer like a handler that returned None.
+            self.fire(notfound(req, res))
         else:
             # Errors are handled by the ``HTTP`` Protocol Component
             return
